@@ -24,8 +24,8 @@ pub fn run(spec_path: &str, out_path: &str) {
                 Ok(t) => { torrents.push(t); loaded.push(true); }
                 Err(_) => loaded.push(false),
             },
-            "scan" => scans.push(PathBuf::from(String::from_utf8(unhex(rest)).unwrap())),
-            "export" => export = PathBuf::from(String::from_utf8(unhex(rest)).unwrap()),
+            "scan" => scans.push(PathBuf::from(<std::ffi::OsString as std::os::unix::ffi::OsStringExt>::from_vec(unhex(rest)))),
+            "export" => export = PathBuf::from(<std::ffi::OsString as std::os::unix::ffi::OsStringExt>::from_vec(unhex(rest))),
             "threads" => threads = rest.parse().unwrap(),
             "resize" => resize = rest == "1",
             "fail" => plan.fail_at = rest.split(',').filter(|s| !s.is_empty()).map(|s| s.parse().unwrap()).collect(),
